@@ -36,6 +36,10 @@ pub struct Knobs {
     pub recv_intr_ppm: u32,
     pub oversleep_max_ns: u64,
     pub rcvbuf: usize,
+    #[serde(default)]
+    pub preempt_ppm: u32,
+    #[serde(default)]
+    pub preempt_max_ns: u64,
 }
 
 #[derive(Clone, Debug, PartialEq, Eq, Serialize, Deserialize)]
@@ -140,6 +144,8 @@ fn knobs(r: &mut Rng, profile: Profile, seed: u64) -> Knobs {
         recv_intr_ppm: 0,
         oversleep_max_ns: 0,
         rcvbuf: 256,
+        preempt_ppm: 0,
+        preempt_max_ns: 0,
     };
     let some = |r: &mut Rng, v: &[u32]| if r.chance(2, 3) { *r.pick(v) } else { 0 };
     match profile {
@@ -150,6 +156,8 @@ fn knobs(r: &mut Rng, profile: Profile, seed: u64) -> Knobs {
             k.delay_ppm = some(r, &[50_000, 300_000]);
             k.delay_max_ns = *r.pick(&[5_000_000u64, 500_000_000, 3_000_000_000]);
             k.oversleep_max_ns = *r.pick(&[0u64, 2_000_000]);
+            k.preempt_ppm = some(r, &[2_000, 30_000]);
+            k.preempt_max_ns = *r.pick(&[20_000_000u64, 1_500_000_000, 3_000_000_000]);
         }
         Profile::Hostile => {
             k.corrupt_ppm = some(r, &[50_000, 300_000, 800_000]);
@@ -168,6 +176,8 @@ fn knobs(r: &mut Rng, profile: Profile, seed: u64) -> Knobs {
             k.recv_intr_ppm = some(r, &[10_000, 100_000]);
             k.oversleep_max_ns = *r.pick(&[0u64, 2_000_000, 50_000_000]);
             k.rcvbuf = *r.pick(&[2usize, 8, 256]);
+            k.preempt_ppm = some(r, &[2_000, 30_000]);
+            k.preempt_max_ns = *r.pick(&[20_000_000u64, 1_500_000_000, 3_000_000_000]);
         }
     }
     k
